@@ -104,6 +104,10 @@ func (b *builder) value(s map[string]any, outside bool) any {
 	case "boolean":
 		return "not-a-boolean"
 	case "array":
+		// an array whose innermost element violates the items (the shape on which nested items validators matter)
+		if it, ok := s["items"].(map[string]any); ok {
+			return []any{b.value(it, true)}
+		}
 		return "not-an-array"
 	default:
 		return gen.Number(7) // objects (and allOf of objects) reject a number
@@ -323,19 +327,40 @@ func genCase(t *rapid.T) Case {
 			r["examples"] = map[string]any{"application/json": v}
 			b.decos = append(b.decos, Deco{Where: "response 200 examples[application/json] of " + oi.ID, Kind: "response-example", Schema: gen.Text(stripDecos(resolved)), Value: gen.Text(v), Depth: 0})
 		}
+		// site B2: the 200 response schema of a second operation, which gets no extra parameters or headers
+		// (the traversal state left by one response must not hide the schema of the next)
+		if len(info.Ops) > 1 && (info.Ops[1].Path != oi.Path || info.Ops[1].Method != oi.Method) {
+			o2 := info.Ops[1]
+			vd3, ve3 := &visitedReplica{map[string]bool{}}, &visitedReplica{map[string]bool{}}
+			tree2 := b.tree(depth, "response 200 schema of "+o2.ID, "200", "200", vd3, ve3, false, false, leafDef, 0)
+			for _, pair := range []struct {
+				d  map[string]any
+				tr any
+			}{{doc, tree2}, {base, stripDecos(gen.Clone(tree2))}} {
+				op := pair.d["paths"].(map[string]any)[o2.Path].(map[string]any)[o2.Method].(map[string]any)
+				op["responses"].(map[string]any)["200"] = map[string]any{"description": "decorated too", "schema": pair.tr}
+			}
+		}
 		// site C: simple parameter with default, array parameter with items default, header with default
 		for _, d := range []map[string]any{doc, base} {
 			op := d["paths"].(map[string]any)[oi.Path].(map[string]any)[oi.Method].(map[string]any)
 			ps, _ := op["parameters"].([]any)
-			ps = append(ps, map[string]any{"name": "decoQ", "in": "query", "type": "integer", "minimum": gen.Number(1), "maximum": gen.Number(5)},
+			nested := func() map[string]any {
+				return map[string]any{"type": "array", "items": map[string]any{"type": "array", "items": map[string]any{"type": "string", "enum": []any{"red", "green"}}}}
+			}
+			n1 := nested()
+			n1["name"], n1["in"] = "decoArr2", "query"
+			ps = append(ps, n1, map[string]any{"name": "decoQ", "in": "query", "type": "integer", "minimum": gen.Number(1), "maximum": gen.Number(5)},
 				map[string]any{"name": "decoArr", "in": "query", "type": "array", "items": map[string]any{"type": "string", "enum": []any{"red", "green"}}})
 			op["parameters"] = ps
 			r := op["responses"].(map[string]any)["200"].(map[string]any)
 			r["headers"] = map[string]any{"X-Deco": map[string]any{"type": "integer", "minimum": gen.Number(1), "maximum": gen.Number(5)},
-				"X-DecoArr": map[string]any{"type": "array", "items": map[string]any{"type": "string", "enum": []any{"red", "green"}}}}
+				"X-DecoArr": map[string]any{"type": "array", "items": map[string]any{"type": "string", "enum": []any{"red", "green"}}},
+				"X-DecoArr2": nested()}
 		}
 		op := doc["paths"].(map[string]any)[oi.Path].(map[string]any)[oi.Method].(map[string]any)
 		ps := op["parameters"].([]any)
+		arr2 := ps[len(ps)-3].(map[string]any)
 		q := ps[len(ps)-2].(map[string]any)
 		arr := ps[len(ps)-1].(map[string]any)
 		hs := op["responses"].(map[string]any)["200"].(map[string]any)["headers"].(map[string]any)
@@ -359,6 +384,10 @@ func genCase(t *rapid.T) Case {
 		}
 		simple("parameter decoQ", q, q, 0)
 		simple("items of parameter decoArr", arr["items"].(map[string]any), arr["items"].(map[string]any), 1)
+		// a default on the array itself: its elements (and, for arrays of arrays, the innermost elements) must satisfy the items
+		simple("parameter decoArr (whole array)", arr, arr, 1)
+		simple("parameter decoArr2 (array of arrays)", arr2, arr2, 2)
+		simple("header X-DecoArr2 (array of arrays)", hs["X-DecoArr2"].(map[string]any), hs["X-DecoArr2"].(map[string]any), 2)
 		simple("header X-Deco", hs["X-Deco"].(map[string]any), hs["X-Deco"].(map[string]any), 0)
 		simple("items of header X-DecoArr", hs["X-DecoArr"].(map[string]any)["items"].(map[string]any), hs["X-DecoArr"].(map[string]any)["items"].(map[string]any), 1)
 	}
